@@ -48,6 +48,8 @@ class HObj:
         o.arr, o.n = self.arr, self.n
         o.sym = dict(self.sym) if self.sym is not None else None
         o.frozen = self.frozen
+        if getattr(self, "opt", None) is not None:
+            o.opt = dict(self.opt)      # dict with optional keys: key -> presence guard
         return o
 
 
